@@ -9,16 +9,55 @@ use std::collections::{BTreeMap, BTreeSet};
 use std::net::{Ipv4Addr, Ipv6Addr};
 
 use tantivy::schema::{
-    BytesOptions, DateOptions, FacetOptions, Field, IpAddrOptions, NumericOptions, OwnedValue,
-    Schema, FAST, INDEXED, STORED, STRING, TEXT,
+    BytesOptions, DateOptions, FacetOptions, Field, IndexRecordOption, IpAddrOptions, JsonObjectOptions,
+    NumericOptions, OwnedValue, Schema, TextFieldIndexing, TextOptions, FAST, INDEXED, STORED, STRING, TEXT,
 };
-use tantivy::TantivyDocument;
+use tantivy::tokenizer::{LowerCaser, RemoveLongFilter, SimpleTokenizer, StopWordFilter, TextAnalyzer};
+use tantivy::{Index, TantivyDocument};
 use tvmon::rng::Rng;
 
 // ---------------------------------------------------------------------------------------------
 // schema
 
 pub const WEIRD_FIELD: &str = "k:v x";
+
+// Analyzers that REMOVE tokens. A removed token still counts as a position, at indexing time and
+// in a query literal alike: `sw:"quick the fox"` is `quick`, one position left out, then `fox`.
+/// tokenizer of `sw` and `jt`: split on non-alphanumerics, lower-case, drop `STOP_WORDS`
+pub const STOP_TOKENIZER: &str = "c16_stop";
+/// tokenizer of `lg`: split on non-alphanumerics, drop tokens of `SHORT_LIMIT` bytes or more, lower-case
+pub const SHORT_TOKENIZER: &str = "c16_short";
+pub const STOP_WORDS: &[&str] = &["the", "and", "of", "to", "in", "not"];
+pub const SHORT_LIMIT: usize = 6;
+/// the `default` tokenizer (title, body, js) drops tokens of 40 bytes or more
+pub const DEFAULT_LIMIT: usize = 40;
+/// removed by the `default` tokenizer: 40 letters, 45 letters, 20 letters of two bytes each
+const LONG_WORDS: &[&str] = &[
+    "abcdefghijklmnopqrstuvwxyzabcdefghijklmn",
+    "pneumonoultramicroscopicsilicovolcanoconiosis",
+    "üüüüüüüüüüüüüüüüüüüü",
+];
+/// removed by the `lg` tokenizer (6 bytes or more; the last one has two characters)
+const LONGISH_WORDS: &[&str] = &["banana", "cherry", "juliet", "orange", "kilogram", "東京"];
+
+/// the system under test is configured with the two extra analyzers (the oracle models them by
+/// `keeps` below, without any tantivy code)
+pub fn register_tokenizers(index: &Index) {
+    index.tokenizers().register(
+        STOP_TOKENIZER,
+        TextAnalyzer::builder(SimpleTokenizer::default())
+            .filter(LowerCaser)
+            .filter(StopWordFilter::remove(STOP_WORDS.iter().map(|w| w.to_string())))
+            .build(),
+    );
+    index.tokenizers().register(
+        SHORT_TOKENIZER,
+        TextAnalyzer::builder(SimpleTokenizer::default())
+            .filter(RemoveLongFilter::limit(SHORT_LIMIT))
+            .filter(LowerCaser)
+            .build(),
+    );
+}
 
 pub struct Fields {
     pub schema: Schema,
@@ -35,6 +74,9 @@ pub struct Fields {
     pub b: Field,
     pub fa: Field,
     pub js: Field,
+    pub sw: Field,
+    pub lg: Field,
+    pub jt: Field,
     pub id: Field,
 }
 
@@ -58,13 +100,20 @@ pub fn build_schema(fast: bool) -> Fields {
     let b = sb.add_bool_field("b", num);
     let fa = sb.add_facet_field("fa", FacetOptions::default());
     let js = sb.add_json_field("js", TEXT);
+    // text whose analyzer removes tokens (stop words / long tokens), indexed with positions
+    let with_positions = |tokenizer: &str| {
+        TextFieldIndexing::default().set_tokenizer(tokenizer).set_index_option(IndexRecordOption::WithFreqsAndPositions)
+    };
+    let sw = sb.add_text_field("sw", TextOptions::default().set_indexing_options(with_positions(STOP_TOKENIZER)));
+    let lg = sb.add_text_field("lg", TextOptions::default().set_indexing_options(with_positions(SHORT_TOKENIZER)));
+    let jt = sb.add_json_field("jt", JsonObjectOptions::default().set_indexing_options(with_positions(STOP_TOKENIZER)));
     let id = sb.add_u64_field("id", FAST | INDEXED);
     // fields that exist but cannot be searched the usual way (error paths of the parser)
     sb.add_text_field("st", STORED);
     sb.add_u64_field("u_ff", FAST);
     sb.add_json_field("js_st", STORED);
     let schema = sb.build();
-    Fields { schema, title, body, tag, weird, u, i, f, d, ip, by, b, fa, js, id }
+    Fields { schema, title, body, tag, weird, u, i, f, d, ip, by, b, fa, js, sw, lg, jt, id }
 }
 
 // ---------------------------------------------------------------------------------------------
@@ -74,6 +123,8 @@ const WORDS: &[&str] = &[
     "apple", "banana", "cherry", "delta", "echo", "fox", "golf", "hotel", "india", "juliet", "kilo",
     "lima", "to", "in", "and", "or", "not", "x1", "b2b", "über", "東京", "wo", "wolf", "work", "world",
     "big", "bad",
+    // 39 bytes: the longest token the `default` tokenizer keeps
+    "abcdefghijklmnopqrstuvwxyzabcdefghijklm",
 ];
 
 const TAGS: &[&str] = &[
@@ -127,6 +178,9 @@ pub struct World {
     ips: Vec<u128>,
     bys: Vec<Vec<u8>>,
     facets: Vec<Vec<String>>,
+    /// per analyzer class (`sentence_class`): a few token sequences that documents embed and that
+    /// phrase literals are cut from, so that phrases over a removed token do occur in the corpus
+    sentences: Vec<Vec<Vec<String>>>,
 }
 
 // ---------------------------------------------------------------------------------------------
@@ -151,6 +205,10 @@ pub struct MDoc {
     pub js_n: Option<i64>,
     pub js_b: Option<bool>,
     pub js_kw: Option<Vec<String>>,
+    /// raw tokens (before the analyzer removes some of them) of `sw`, `lg`, `jt.s`
+    pub sw: Option<Vec<String>>,
+    pub lg: Option<Vec<String>>,
+    pub jt_s: Option<Vec<String>>,
 }
 
 fn ascii_words_only(ws: &[String]) -> Vec<String> {
@@ -160,7 +218,8 @@ fn ascii_words_only(ws: &[String]) -> Vec<String> {
 impl World {
     pub fn new(rng: &mut Rng) -> World {
         let words: Vec<String> = subset(rng, WORDS, 5, 12).into_iter().map(String::from).collect();
-        World {
+        let mut world = World {
+            sentences: vec![],
             focus: words.iter().take(3).cloned().collect(),
             words,
             tags: subset(rng, TAGS, 3, 8).into_iter().map(String::from).collect(),
@@ -174,7 +233,101 @@ impl World {
                 .into_iter()
                 .map(|p| p.iter().map(|s| s.to_string()).collect())
                 .collect(),
+        };
+        for class in SENTENCE_CLASSES {
+            let pool = (0..4).map(|_| world.gen_sentence(*class, rng)).collect();
+            world.sentences.push(pool);
         }
+        world
+    }
+
+    /// a token as it may stand in a document or inside a phrase literal of `field`: the field's
+    /// vocabulary, including tokens its analyzer removes
+    fn raw_word(&self, field: FieldSel, rng: &mut Rng) -> String {
+        match field {
+            FieldSel::Sw if rng.chance(1, 3) => rng.pick(STOP_WORDS).to_string(),
+            FieldSel::Sw if rng.chance(1, 12) => rng.pick(LONG_WORDS).to_string(),
+            FieldSel::JtS if rng.chance(1, 3) => rng.pick(STOP_WORDS).to_string(),
+            FieldSel::Lg if rng.chance(1, 6) => rng.pick(LONGISH_WORDS).to_string(),
+            FieldSel::JsS | FieldSel::JsKW if rng.chance(1, 10) => LONG_WORDS[rng.usize_below(2)].to_string(),
+            FieldSel::JsS | FieldSel::JsKW | FieldSel::JtS => self.json_words(rng, 1, 1).remove(0),
+            FieldSel::Default | FieldSel::Title | FieldSel::Body if rng.chance(1, 10) => rng.pick(LONG_WORDS).to_string(),
+            _ => self.word(rng),
+        }
+    }
+
+    fn removed_word(&self, field: FieldSel, rng: &mut Rng) -> String {
+        match field {
+            FieldSel::Sw | FieldSel::JtS => rng.pick(STOP_WORDS).to_string(),
+            FieldSel::Lg => rng.pick(LONGISH_WORDS).to_string(),
+            FieldSel::JsS | FieldSel::JsKW => LONG_WORDS[rng.usize_below(2)].to_string(),
+            _ => rng.pick(LONG_WORDS).to_string(),
+        }
+    }
+
+    /// a token of `field` that its analyzer keeps (what a single-term literal is made of)
+    fn kept_word(&self, field: FieldSel, rng: &mut Rng) -> String {
+        for _ in 0..40 {
+            let w = self.raw_word(field, rng);
+            if keeps(field, &w) {
+                return w;
+            }
+        }
+        "fox".to_string()
+    }
+
+    /// 3-7 raw tokens, most of the time with one or two removed tokens between kept ones
+    fn gen_sentence(&self, field: FieldSel, rng: &mut Rng) -> Vec<String> {
+        let n = rng.urange(3, 7);
+        let mut s: Vec<String> = (0..n).map(|_| self.raw_word(field, rng)).collect();
+        if rng.chance(3, 4) {
+            for _ in 0..rng.urange(1, 2) {
+                let k = rng.urange(1, n - 2);
+                s[k] = self.removed_word(field, rng);
+            }
+        }
+        s
+    }
+
+    fn sentence(&self, field: FieldSel, rng: &mut Rng) -> &Vec<String> {
+        rng.pick(&self.sentences[sentence_class(field)])
+    }
+
+    /// the raw tokens of a text value of a document
+    fn doc_text(&self, field: FieldSel, rng: &mut Rng, lo: usize, hi: usize, sentence_in: u64) -> Vec<String> {
+        if rng.chance(sentence_in, 4) {
+            let mut t: Vec<String> = (0..rng.urange(0, 2)).map(|_| self.raw_word(field, rng)).collect();
+            t.extend(self.sentence(field, rng).iter().cloned());
+            t.extend((0..rng.urange(0, 2)).map(|_| self.raw_word(field, rng)));
+            t
+        } else {
+            (0..rng.urange(lo, hi)).map(|_| self.raw_word(field, rng)).collect()
+        }
+    }
+
+    /// the words of a phrase literal (or multi-token term) of `field`, `lo..=hi` of them, at least
+    /// one of which the analyzer keeps: a window of a sentence (one word changed now and then) or
+    /// random tokens
+    fn phrase_words(&self, field: FieldSel, rng: &mut Rng, lo: usize, hi: usize) -> Vec<String> {
+        let n = rng.urange(lo, hi);
+        let mut words: Vec<String> = if rng.chance(3, 5) {
+            let s = self.sentence(field, rng);
+            let n = n.min(s.len());
+            let start = rng.urange(0, s.len() - n);
+            let mut w = s[start..start + n].to_vec();
+            if rng.chance(1, 4) {
+                let k = rng.usize_below(w.len());
+                w[k] = self.raw_word(field, rng);
+            }
+            w
+        } else {
+            (0..n).map(|_| self.raw_word(field, rng)).collect()
+        };
+        if !words.iter().any(|w| keeps(field, w)) {
+            let k = rng.usize_below(words.len());
+            words[k] = self.kept_word(field, rng);
+        }
+        words
     }
 
     fn word(&self, rng: &mut Rng) -> String {
@@ -210,8 +363,8 @@ impl World {
         let opt = |rng: &mut Rng| rng.chance(3, 4);
         MDoc {
             id,
-            title: if opt(rng) { Some(self.words(rng, 1, 5)) } else { None },
-            body: if opt(rng) { Some(self.words(rng, 1, 8)) } else { None },
+            title: if opt(rng) { Some(self.doc_text(FieldSel::Title, rng, 1, 5, 1)) } else { None },
+            body: if opt(rng) { Some(self.doc_text(FieldSel::Body, rng, 1, 8, 1)) } else { None },
             tag: (0..rng.urange(0, 2)).map(|_| rng.pick(&self.tags).clone()).collect(),
             weird: (0..rng.urange(0, 1)).map(|_| rng.pick(&self.tags).clone()).collect(),
             u: (0..rng.urange(0, 2)).map(|_| *rng.pick(&self.us)).collect(),
@@ -222,10 +375,13 @@ impl World {
             by: if opt(rng) { Some(rng.pick(&self.bys).clone()) } else { None },
             b: if opt(rng) { Some(rng.bool()) } else { None },
             fa: (0..rng.urange(0, 2)).map(|_| rng.pick(&self.facets).clone()).collect(),
-            js_s: if opt(rng) { Some(self.json_words(rng, 1, 4)) } else { None },
+            js_s: if opt(rng) { Some(self.doc_text(FieldSel::JsS, rng, 1, 4, 1)) } else { None },
             js_n: if opt(rng) { Some(*rng.pick(&[0i64, 1, 5, -3, 42, 1000])) } else { None },
             js_b: if rng.bool() { Some(rng.bool()) } else { None },
             js_kw: if rng.bool() { Some(self.json_words(rng, 1, 3)) } else { None },
+            sw: if opt(rng) { Some(self.doc_text(FieldSel::Sw, rng, 1, 8, 2)) } else { None },
+            lg: if opt(rng) { Some(self.doc_text(FieldSel::Lg, rng, 1, 8, 2)) } else { None },
+            jt_s: if rng.bool() { Some(self.doc_text(FieldSel::JtS, rng, 1, 6, 2)) } else { None },
         }
     }
 }
@@ -314,6 +470,17 @@ impl MDoc {
         if !obj.is_empty() {
             d.add_object(f.js, obj);
         }
+        if let Some(t) = &self.sw {
+            d.add_text(f.sw, surface_text(t, self.id * 2 + 5));
+        }
+        if let Some(t) = &self.lg {
+            d.add_text(f.lg, surface_text(t, self.id * 2 + 6));
+        }
+        if let Some(t) = &self.jt_s {
+            let obj: BTreeMap<String, OwnedValue> =
+                [("s".to_string(), OwnedValue::Str(surface_text(t, self.id * 2 + 7)))].into_iter().collect();
+            d.add_object(f.jt, obj);
+        }
         d
     }
 
@@ -344,6 +511,35 @@ pub enum FieldSel {
     JsN,
     JsB,
     JsKW,
+    /// text, stop words removed
+    Sw,
+    /// text, tokens of 6 bytes or more removed
+    Lg,
+    /// JSON text, stop words removed
+    JtS,
+}
+
+/// the analyzer classes that have their own sentence pool, by a representative field
+const SENTENCE_CLASSES: &[FieldSel] = &[FieldSel::Title, FieldSel::JsS, FieldSel::Sw, FieldSel::Lg, FieldSel::JtS];
+
+fn sentence_class(field: FieldSel) -> usize {
+    match field {
+        FieldSel::JsS | FieldSel::JsKW => 1,
+        FieldSel::Sw => 2,
+        FieldSel::Lg => 3,
+        FieldSel::JtS => 4,
+        _ => 0,
+    }
+}
+
+/// Naive model of the analyzers: does the analyzer of `field` index this (lower-case) token? A
+/// token it removes still occupies its position.
+pub fn keeps(field: FieldSel, token: &str) -> bool {
+    match field {
+        FieldSel::Sw | FieldSel::JtS => !STOP_WORDS.contains(&token),
+        FieldSel::Lg => token.len() < SHORT_LIMIT,
+        _ => token.len() < DEFAULT_LIMIT,
+    }
 }
 
 impl FieldSel {
@@ -366,6 +562,9 @@ impl FieldSel {
             FieldSel::JsN => "js.n",
             FieldSel::JsB => "js.b",
             FieldSel::JsKW => "js.k.w",
+            FieldSel::Sw => "sw",
+            FieldSel::Lg => "lg",
+            FieldSel::JtS => "jt.s",
         })
     }
     fn label(self) -> &'static str {
@@ -385,10 +584,16 @@ impl FieldSel {
             FieldSel::JsS | FieldSel::JsKW => "json-text",
             FieldSel::JsN => "json-number",
             FieldSel::JsB => "json-bool",
+            FieldSel::Sw => "text-stopwords",
+            FieldSel::Lg => "text-maxlen",
+            FieldSel::JtS => "json-text-stopwords",
         }
     }
     fn is_text(self) -> bool {
-        matches!(self, FieldSel::Default | FieldSel::Title | FieldSel::Body | FieldSel::JsS | FieldSel::JsKW)
+        matches!(
+            self,
+            FieldSel::Default | FieldSel::Title | FieldSel::Body | FieldSel::JsS | FieldSel::JsKW | FieldSel::Sw | FieldSel::Lg | FieldSel::JtS
+        )
     }
 }
 
@@ -449,30 +654,45 @@ pub enum Node {
 // ---------------------------------------------------------------------------------------------
 // naive evaluation
 
-fn contains_phrase(tokens: &[String], phrase: &[String]) -> bool {
-    if phrase.is_empty() || tokens.len() < phrase.len() {
-        return false;
-    }
-    (0..=tokens.len() - phrase.len()).any(|s| tokens[s..s + phrase.len()] == *phrase)
+/// a text value as its analyzer leaves it: position -> token, `None` where a token was removed
+fn analyzed(field: FieldSel, raw: &[String]) -> Vec<Option<&str>> {
+    raw.iter().map(|t| if keeps(field, t) { Some(t.as_str()) } else { None }).collect()
 }
 
-fn contains_phrase_prefix(tokens: &[String], phrase: &[String]) -> bool {
+/// the tokens of a phrase literal that the analyzer keeps, with their positions in the literal
+fn phrase_terms(field: FieldSel, words: &[String]) -> Vec<(usize, &str)> {
+    words.iter().enumerate().filter(|(_, w)| keeps(field, w)).map(|(k, w)| (k, w.as_str())).collect()
+}
+
+/// every kept token of the phrase stands in the value, at the same distances as in the literal
+fn contains_phrase(tokens: &[Option<&str>], phrase: &[(usize, &str)]) -> bool {
+    let Some((base, _)) = phrase.first() else { return false };
+    (0..tokens.len()).any(|s| phrase.iter().all(|(o, w)| tokens.get(s + o - base) == Some(&Some(*w))))
+}
+
+/// as `contains_phrase`, the last token of the literal being a prefix of the token in the value
+fn contains_phrase_prefix(tokens: &[Option<&str>], phrase: &[(usize, &str)]) -> bool {
     let n = phrase.len();
-    if n < 2 || tokens.len() < n {
+    if n < 2 {
         return false;
     }
-    (0..=tokens.len() - n)
-        .any(|s| tokens[s..s + n - 1] == phrase[..n - 1] && tokens[s + n - 1].starts_with(phrase[n - 1].as_str()))
+    let base = phrase[0].0;
+    let (last_o, last_w) = phrase[n - 1];
+    (0..tokens.len()).any(|s| {
+        phrase[..n - 1].iter().all(|(o, w)| tokens.get(s + o - base) == Some(&Some(*w)))
+            && matches!(tokens.get(s + last_o - base), Some(Some(t)) if t.starts_with(last_w))
+    })
 }
 
-/// two-term sloppy phrase: positions pa of a, pb of b with |pa + 1 - pb| <= slop
-fn contains_sloppy_pair(tokens: &[String], a: &str, b: &str, slop: u32) -> bool {
+/// two-term sloppy phrase: a at position pa, b at pb, b expected `gap` positions after a:
+/// |pa + gap - pb| <= slop (gap = 1 for adjacent words)
+fn contains_sloppy_pair(tokens: &[Option<&str>], a: &str, b: &str, gap: usize, slop: u32) -> bool {
     for (pa, ta) in tokens.iter().enumerate() {
-        if ta != a {
+        if *ta != Some(a) {
             continue;
         }
         for (pb, tb) in tokens.iter().enumerate() {
-            if tb == b && ((pa as i64 + 1) - pb as i64).unsigned_abs() <= slop as u64 {
+            if *tb == Some(b) && ((pa + gap) as i64 - pb as i64).unsigned_abs() <= slop as u64 {
                 return true;
             }
         }
@@ -496,6 +716,9 @@ fn text_fields<'a>(d: &'a MDoc, f: FieldSel) -> Vec<&'a Vec<String>> {
         FieldSel::Body => push(&d.body),
         FieldSel::JsS => push(&d.js_s),
         FieldSel::JsKW => push(&d.js_kw),
+        FieldSel::Sw => push(&d.sw),
+        FieldSel::Lg => push(&d.lg),
+        FieldSel::JtS => push(&d.jt_s),
         _ => {}
     }
     v
@@ -504,9 +727,9 @@ fn text_fields<'a>(d: &'a MDoc, f: FieldSel) -> Vec<&'a Vec<String>> {
 /// all values of `field` in `d`, as `Val`s comparable with query literals
 fn field_values(d: &MDoc, field: FieldSel) -> Vec<Val> {
     match field {
-        FieldSel::Default | FieldSel::Title | FieldSel::Body | FieldSel::JsS | FieldSel::JsKW => text_fields(d, field)
+        f if f.is_text() => text_fields(d, field)
             .into_iter()
-            .flat_map(|t| t.iter().map(|w| Val::Text(vec![w.clone()])))
+            .flat_map(|t| t.iter().filter(|w| keeps(field, w)).map(|w| Val::Text(vec![w.clone()])))
             .collect(),
         FieldSel::Tag => d.tag.iter().map(|t| Val::Raw(t.clone())).collect(),
         FieldSel::Weird => d.weird.iter().map(|t| Val::Raw(t.clone())).collect(),
@@ -520,6 +743,9 @@ fn field_values(d: &MDoc, field: FieldSel) -> Vec<Val> {
         FieldSel::Fa => d.fa.iter().map(|v| Val::Fa(v.clone())).collect(),
         FieldSel::JsN => d.js_n.iter().map(|v| Val::I(*v)).collect(),
         FieldSel::JsB => d.js_b.iter().map(|v| Val::B(*v)).collect(),
+        // text fields: first arm
+        FieldSel::Default | FieldSel::Title | FieldSel::Body | FieldSel::JsS | FieldSel::JsKW | FieldSel::Sw | FieldSel::Lg
+        | FieldSel::JtS => vec![],
     }
 }
 
@@ -539,7 +765,10 @@ fn cmp_val(a: &Val, b: &Val) -> Option<std::cmp::Ordering> {
 
 fn term_matches(d: &MDoc, field: FieldSel, val: &Val) -> bool {
     match val {
-        Val::Text(tokens) => text_fields(d, field).into_iter().any(|t| contains_phrase(t, tokens)),
+        Val::Text(tokens) => {
+            let phrase = phrase_terms(field, tokens);
+            text_fields(d, field).into_iter().any(|t| contains_phrase(&analyzed(field, t), &phrase))
+        }
         Val::Fa(q) => d.fa.iter().any(|p| p.len() >= q.len() && p[..q.len()] == q[..]),
         other => field_values(d, field).iter().any(|v| v == other),
     }
@@ -549,15 +778,19 @@ pub fn eval_leaf(l: &Leaf, d: &MDoc) -> bool {
     match l {
         Leaf::All => true,
         Leaf::Term { field, val } => term_matches(d, *field, val),
-        Leaf::Phrase { field, words, slop, prefix } => text_fields(d, *field).into_iter().any(|t| {
-            if *prefix {
-                contains_phrase_prefix(t, words)
-            } else if *slop > 0 && words.len() == 2 {
-                contains_sloppy_pair(t, &words[0], &words[1], *slop)
-            } else {
-                contains_phrase(t, words)
-            }
-        }),
+        Leaf::Phrase { field, words, slop, prefix } => {
+            let phrase = phrase_terms(*field, words);
+            text_fields(d, *field).into_iter().any(|t| {
+                let t = analyzed(*field, t);
+                if *prefix {
+                    contains_phrase_prefix(&t, &phrase)
+                } else if *slop > 0 && phrase.len() == 2 {
+                    contains_sloppy_pair(&t, phrase[0].1, phrase[1].1, phrase[1].0 - phrase[0].0, *slop)
+                } else {
+                    contains_phrase(&t, &phrase)
+                }
+            })
+        }
         Leaf::Range { field, lo, hi, .. } => field_values(d, *field).iter().any(|v| {
             use std::cmp::Ordering::*;
             let lo_ok = match lo {
@@ -638,6 +871,8 @@ impl World {
         match field {
             FieldSel::Default | FieldSel::Title | FieldSel::Body => Val::Text(vec![self.word(rng)]),
             FieldSel::JsS | FieldSel::JsKW => Val::Text(self.json_words(rng, 1, 1)),
+            // a single-term literal is a token the analyzer of the field keeps
+            FieldSel::Sw | FieldSel::Lg | FieldSel::JtS => Val::Text(vec![self.kept_word(field, rng)]),
             FieldSel::Tag | FieldSel::Weird => Val::Raw(rng.pick(&self.tags).clone()),
             FieldSel::U => Val::U(if rng.chance(1, 6) { rng.range(0, 12) } else { *rng.pick(&self.us) }),
             FieldSel::I => Val::I(if rng.chance(1, 6) { rng.irange(-6, 6) } else { *rng.pick(&self.is) }),
@@ -659,49 +894,64 @@ impl World {
         const TERM_FIELDS: &[FieldSel] = &[
             FieldSel::Default, FieldSel::Default, FieldSel::Title, FieldSel::Body, FieldSel::Tag, FieldSel::Weird,
             FieldSel::U, FieldSel::I, FieldSel::F, FieldSel::D, FieldSel::Ip, FieldSel::By, FieldSel::B, FieldSel::Fa,
-            FieldSel::JsS, FieldSel::JsN, FieldSel::JsB, FieldSel::JsKW,
+            FieldSel::JsS, FieldSel::JsN, FieldSel::JsB, FieldSel::JsKW, FieldSel::Sw, FieldSel::Lg, FieldSel::JtS,
         ];
         const RANGE_FIELDS: &[FieldSel] = &[
             FieldSel::Title, FieldSel::Body, FieldSel::Tag, FieldSel::U, FieldSel::I, FieldSel::F, FieldSel::D, FieldSel::Ip,
+            FieldSel::Sw, FieldSel::Lg,
         ];
         const SET_FIELDS: &[FieldSel] = &[
             FieldSel::Title, FieldSel::Body, FieldSel::Tag, FieldSel::Weird, FieldSel::U, FieldSel::I, FieldSel::F,
-            FieldSel::D, FieldSel::Ip, FieldSel::By, FieldSel::B,
+            FieldSel::D, FieldSel::Ip, FieldSel::By, FieldSel::B, FieldSel::Sw, FieldSel::Lg,
         ];
-        match rng.weighted(&[40, 8, 14, 14, 10, 2]) {
+        match rng.weighted(&[40, 10, 18, 14, 10, 2]) {
             0 => {
                 let field = *rng.pick(TERM_FIELDS);
                 Leaf::Term { field, val: self.gen_val(field, rng) }
             }
             1 => {
                 // multi-token term on a tokenized field: documented to behave as a phrase
-                let field = *rng.pick(&[FieldSel::Default, FieldSel::Title, FieldSel::Body, FieldSel::JsS]);
-                let n = rng.urange(2, 3);
-                let toks = if field == FieldSel::JsS { self.json_words(rng, n, n) } else { self.words(rng, n, n) };
-                Leaf::Term { field, val: Val::Text(toks) }
+                // (through the analyzer of the field: the tokens it removes leave their positions empty)
+                let field = *rng.pick(&[
+                    FieldSel::Default, FieldSel::Title, FieldSel::Body, FieldSel::JsS, FieldSel::JsS, FieldSel::Sw, FieldSel::Lg,
+                    FieldSel::JtS, FieldSel::JtS,
+                ]);
+                Leaf::Term { field, val: Val::Text(self.phrase_words(field, rng, 2, 4)) }
             }
             2 => {
-                let field = *rng.pick(&[FieldSel::Default, FieldSel::Title, FieldSel::Body]);
-                let n = rng.urange(2, 4);
-                let mut words = self.words(rng, n, n);
+                let field = *rng.pick(&[
+                    FieldSel::Default, FieldSel::Title, FieldSel::Body, FieldSel::Sw, FieldSel::Sw, FieldSel::Lg, FieldSel::Lg,
+                ]);
+                let mut words = self.phrase_words(field, rng, 2, 5);
+                let kept: Vec<usize> = (0..words.len()).filter(|k| keeps(field, &words[*k])).collect();
                 let (slop, prefix) = match rng.weighted(&[3, 4, 3]) {
                     0 => (0, false),
                     1 => {
-                        // slop only for two distinct terms (the only case the docs pin down)
-                        words.truncate(2);
-                        if words[0] == words[1] {
-                            (0, false)
-                        } else {
+                        // slop only for two distinct terms (the only case the docs pin down): the
+                        // literal ends at its second kept token, removed tokens between the two stay
+                        if kept.len() >= 2 && words[kept[0]] != words[kept[1]] {
+                            words.truncate(kept[1] + 1);
                             (rng.range(1, 4) as u32, false)
+                        } else {
+                            (0, false)
                         }
                     }
                     _ => {
-                        // phrase prefix: shorten the last word
-                        let last = words.pop().unwrap_or_default();
+                        // phrase prefix: shorten the last word; it needs two kept tokens, the
+                        // prefix being one of them
+                        let mut w = words.clone();
+                        let last = w.pop().unwrap_or_default();
                         let cs: Vec<char> = last.chars().collect();
                         let keep = rng.urange(1, cs.len().max(1));
-                        words.push(cs[..keep.min(cs.len())].iter().collect());
-                        (0, true)
+                        let short: String = cs[..keep.min(cs.len())].iter().collect();
+                        let kept_before = w.iter().filter(|x| keeps(field, x)).count();
+                        if !short.is_empty() && keeps(field, &short) && kept_before >= 1 {
+                            w.push(short);
+                            words = w;
+                            (0, true)
+                        } else {
+                            (0, false)
+                        }
                     }
                 };
                 Leaf::Phrase { field, words, slop, prefix }
@@ -780,8 +1030,8 @@ impl World {
         let w: [u32; 3] = if depth >= 2 { [1, 0, 0] } else if depth == 0 { [20, 40, 40] } else { [60, 20, 20] };
         match rng.weighted(&w) {
             0 => {
-                let val = if field == FieldSel::JsS && rng.chance(1, 3) {
-                    Val::Text(self.json_words(rng, 2, 3))
+                let val = if matches!(field, FieldSel::JsS | FieldSel::Sw | FieldSel::Lg | FieldSel::JtS) && rng.chance(1, 3) {
+                    Val::Text(self.phrase_words(field, rng, 2, 3))
                 } else {
                     self.gen_val(field, rng)
                 };
@@ -852,12 +1102,22 @@ impl World {
                 // field group on a field that is not a default field
                 const GROUP_FIELDS: &[FieldSel] = &[
                     FieldSel::Tag, FieldSel::Tag, FieldSel::Weird, FieldSel::JsS, FieldSel::JsS, FieldSel::JsKW,
-                    FieldSel::U, FieldSel::I, FieldSel::JsN,
+                    FieldSel::U, FieldSel::I, FieldSel::JsN, FieldSel::Sw, FieldSel::Lg, FieldSel::JtS,
                 ];
                 let field = *rng.pick(GROUP_FIELDS);
                 Node::Group { field, inner: Box::new(self.gen_group_expr(field, rng, 0)) }
             }
         }
+    }
+}
+
+/// where the analyzer of `field` removes tokens of a multi-token literal (part of the feature name)
+fn removed_tokens(field: FieldSel, words: &[String]) -> &'static str {
+    let kept: Vec<usize> = (0..words.len()).filter(|k| keeps(field, &words[*k])).collect();
+    match (kept.first(), kept.last()) {
+        (Some(a), Some(b)) if kept.len() < b - a + 1 => ":analyzer-removes-inner-token",
+        _ if kept.len() < words.len() => ":analyzer-removes-edge-token",
+        _ => "",
     }
 }
 
@@ -869,13 +1129,13 @@ pub fn features(n: &Node) -> BTreeSet<String> {
             }
             Leaf::Term { field, val } => {
                 match val {
-                    Val::Text(t) if t.len() > 1 => out.insert(format!("multitoken-term:{}", field.label())),
+                    Val::Text(t) if t.len() > 1 => out.insert(format!("multitoken-term:{}{}", field.label(), removed_tokens(*field, t))),
                     _ => out.insert(format!("term:{}", field.label())),
                 };
             }
-            Leaf::Phrase { field, slop, prefix, .. } => {
+            Leaf::Phrase { field, slop, prefix, words } => {
                 let k = if *prefix { "phrase-prefix" } else if *slop > 0 { "phrase-slop" } else { "phrase" };
-                out.insert(format!("{k}:{}", field.label()));
+                out.insert(format!("{k}:{}{}", field.label(), removed_tokens(*field, words)));
             }
             Leaf::Range { field, lo, hi, elastic } => {
                 let b = |b: &Bnd| match b {
@@ -974,7 +1234,31 @@ fn leaf_rank(l: &Leaf) -> u32 {
 }
 
 fn simplify_leaf(l: &Leaf, out: &mut Vec<Node>) {
+    // a multi-token literal with one word less (at least two words, one of them kept)
+    let shorter = |field: FieldSel, words: &[String]| -> Vec<Vec<String>> {
+        if words.len() <= 2 {
+            return vec![];
+        }
+        (0..words.len())
+            .map(|k| {
+                let mut w = words.to_vec();
+                w.remove(k);
+                w
+            })
+            .filter(|w| w.iter().any(|x| keeps(field, x)))
+            .collect()
+    };
     match l {
+            Leaf::Phrase { field, words, slop: 0, prefix: false } => {
+                for w in shorter(*field, words) {
+                    out.push(Node::Leaf(Leaf::Phrase { field: *field, words: w, slop: 0, prefix: false }));
+                }
+            }
+            Leaf::Term { field, val: Val::Text(words) } => {
+                for w in shorter(*field, words) {
+                    out.push(Node::Leaf(Leaf::Term { field: *field, val: Val::Text(w) }));
+                }
+            }
             Leaf::Set { field, elems } if elems.len() > 1 => {
                 for k in 0..elems.len() {
                     let mut e = elems.clone();
@@ -992,6 +1276,21 @@ fn simplify_leaf(l: &Leaf, out: &mut Vec<Node>) {
                 }
             }
             _ => {}
+    }
+}
+
+/// Shape of one defect of the unchanged tree (PhrasePrefixScorer assumes that the prefix directly
+/// follows the last phrase term): `n` is a single prefix phrase with two or more kept tokens
+/// before the prefix and a removed token directly before the prefix. Returns the positions the
+/// kept tokens have in the literal (what the parsed query must carry).
+pub fn prefix_after_removed_token(n: &Node) -> Option<Vec<usize>> {
+    let Node::Leaf(Leaf::Phrase { field, words, prefix: true, .. }) = n else { return None };
+    let kept: Vec<usize> = (0..words.len()).filter(|k| keeps(*field, &words[*k])).collect();
+    let k = kept.len();
+    if k >= 3 && kept[k - 1] == words.len() - 1 && kept[k - 2] + 1 < kept[k - 1] {
+        Some(kept)
+    } else {
+        None
     }
 }
 
